@@ -528,6 +528,18 @@ def det_spd(A):
     return det
 
 
+class AbsV:
+    """|x| of a tower element, usable only under log"""
+
+    def __init__(self, x):
+        self.x = x
+
+    def _no(self, *a):
+        raise Unsupported("arithmetic on |x| of a symbolic real (sign unknown)")
+
+    __add__ = __radd__ = __sub__ = __rsub__ = __mul__ = __rmul__ = __truediv__ = __rtruediv__ = __neg__ = _no
+
+
 class TwoPi:
     def __init__(self, k):
         self.k = k
@@ -612,7 +624,7 @@ class OpsReal:
 
     def log(self, x):
         T = self.T
-        f = lambda e: formal_log(T, RE.coerce(T, e))
+        f = lambda e: formal_log(T, e.x * e.x) * Fraction(1, 2) if isinstance(e, AbsV) else formal_log(T, RE.coerce(T, e))
         if isinstance(x, np.ndarray):
             out = np.empty(x.shape, dtype=object)
             for idx in itertools.product(*map(range, x.shape)):
@@ -631,7 +643,13 @@ class OpsReal:
         return f(x)
 
     def abs(self, x):
-        raise Unsupported("abs of a symbolic real (sign unknown)")
+        """|x| is kept formally (AbsV); only log|x| = 1/2 log(x^2) is interpreted"""
+        if isinstance(x, np.ndarray):
+            out = np.empty(x.shape, dtype=object)
+            for idx in itertools.product(*map(range, x.shape)):
+                out[idx] = AbsV(RE.coerce(self.T, x[idx]))
+            return out
+        return AbsV(RE.coerce(self.T, x))
 
     def cat(self, parts, dim=0):
         return np.concatenate(list(parts), dim)
